@@ -13,6 +13,7 @@ import (
 	"math/big"
 	"sort"
 	"strings"
+	"time"
 
 	"golang.org/x/tools/go/ssa"
 )
@@ -45,12 +46,12 @@ type Oblig struct {
 	linSMT  string
 	relSMT  string
 	// filled by solver
-	SMT      string
-	Result   string
-	Backend  string
-	Time     float64
-	Model    map[string]string
-	Instance int
+	SMT        string
+	Result     string
+	Backend    string
+	Time       float64
+	Model      map[string]string
+	Instance   int
 	solverOut  string
 	hasRec     bool
 	run        *runInfo
@@ -63,24 +64,24 @@ type nameRef struct {
 }
 
 type Frame struct {
-	fn        *ssa.Function
-	env       map[ssa.Value]Value
-	blk       *ssa.BasicBlock
-	prev      *ssa.BasicBlock
-	ip        int
-	names     map[string]nameRef
-	cut       map[*ssa.BasicBlock]bool
-	visits    map[*ssa.BasicBlock]int
-	call      *ssa.Call // call instruction in the parent waiting for the result (nil: top)
-	callInstr ssa.Instruction
-	contract  *Contract
-	params    map[string]Value
-	entryHeap map[*Object]interface{}
-	loops     *loopInfo
-	phisDone  bool
-	symIters  int
+	fn          *ssa.Function
+	env         map[ssa.Value]Value
+	blk         *ssa.BasicBlock
+	prev        *ssa.BasicBlock
+	ip          int
+	names       map[string]nameRef
+	cut         map[*ssa.BasicBlock]bool
+	visits      map[*ssa.BasicBlock]int
+	call        *ssa.Call // call instruction in the parent waiting for the result (nil: top)
+	callInstr   ssa.Instruction
+	contract    *Contract
+	params      map[string]Value
+	entryHeap   map[*Object]interface{}
+	loops       *loopInfo
+	phisDone    bool
+	symIters    int
 	callResults map[string]Value
-	entrySnap map[int]*loopSnap // per loop ordinal: locals and heap at loop entry (for atentry())
+	entrySnap   map[int]*loopSnap // per loop ordinal: locals and heap at loop entry (for atentry())
 }
 
 type loopSnap struct {
@@ -228,6 +229,12 @@ type Engine struct {
 	ifaceUsed     map[string]bool
 	returnsSeen   int
 	regexSeq      int
+	tick          int
+	deadline      time.Time // end of the generation budget of the function case being verified
+	genBudget     int       // seconds
+	checkDeadline time.Time
+	checkBudget   int
+	aliasCache    map[*ssa.Function]*aliasInfo
 	tier          string
 	curWork       *[]*State
 	alt           *altResult
@@ -332,9 +339,9 @@ func funcKey(fn *ssa.Function) string {
 // loops
 
 type loopInfo struct {
-	headers  []*ssa.BasicBlock          // in source order
-	ordinal  map[*ssa.BasicBlock]int    // header -> ordinal
-	body     map[*ssa.BasicBlock]map[*ssa.BasicBlock]bool
+	headers []*ssa.BasicBlock       // in source order
+	ordinal map[*ssa.BasicBlock]int // header -> ordinal
+	body    map[*ssa.BasicBlock]map[*ssa.BasicBlock]bool
 }
 
 var loopCache = map[*ssa.Function]*loopInfo{}
